@@ -85,6 +85,7 @@ type Event struct {
 	Act    string `json:"act"` // begin stmt commit rollback auto ddl
 	Stmts  []Stmt `json:"stmts,omitempty"`
 	Unique bool   `json:"unique,omitempty"`
+	Comp   bool   `json:"comp,omitempty"` // with Unique: the composite index on (v, s) (set from Cfg.UComp)
 }
 
 type Cfg struct {
@@ -92,6 +93,7 @@ type Cfg struct {
 	NotNull bool `json:"notnull"`
 	MaxLen  int  `json:"maxlen"`
 	Check   bool `json:"check"`
+	UComp   bool `json:"ucomp"` // the UNIQUE index is the composite one on (v, s)
 }
 
 func zc(i int64) string {
@@ -208,6 +210,9 @@ func (e Event) SQL() string {
 	case "rollback":
 		return "ROLLBACK"
 	case "ddl":
+		if e.Unique && e.Comp {
+			return "CREATE UNIQUE INDEX ON t(v, s)"
+		}
 		if e.Unique {
 			return "CREATE UNIQUE INDEX ON t(v)"
 		}
@@ -259,7 +264,7 @@ func (c Cfg) CreateSQL() string {
 	return q + ")"
 }
 func (c Cfg) Coq() string {
-	return fmt.Sprintf("(Cf %s %s %d %s)", vk.Bool(c.AutoInc), vk.Bool(c.NotNull), c.MaxLen, vk.Bool(c.Check))
+	return fmt.Sprintf("(Cf %s %s %d %s %s)", vk.Bool(c.AutoInc), vk.Bool(c.NotNull), c.MaxLen, vk.Bool(c.Check), vk.Bool(c.UComp))
 }
 
 // ---------- execution on the real engine ----------
@@ -523,6 +528,14 @@ type checker struct {
 	begin       map[int]int       // per session: index of the event that opened its transaction
 }
 
+// ukey: the value of a row under the UNIQUE index, (v) or (v, s)
+func (ck *checker) ukey(r TRow) string {
+	if ck.cfg.UComp {
+		return r.V.Key() + "|" + r.S.Key()
+	}
+	return r.V.Key()
+}
+
 func describe(cfg Cfg, evs []Event, upto int) string {
 	var sb strings.Builder
 	sb.WriteString(cfg.CreateSQL())
@@ -621,11 +634,11 @@ func (ck *checker) check(idx int, ev Event, stmts []Stmt, ok bool, before, after
 	if ck.unique {
 		byVal := map[string][]int64{}
 		for _, r := range after {
-			byVal[r.V.Key()] = append(byVal[r.V.Key()], r.ID)
+			byVal[ck.ukey(r)] = append(byVal[ck.ukey(r)], r.ID)
 		}
 		oldBy := map[string]int{}
 		for _, r := range before {
-			oldBy[r.V.Key()]++
+			oldBy[ck.ukey(r)]++
 		}
 		for k, ids := range byVal {
 			if len(ids) < 2 {
@@ -690,7 +703,7 @@ func runHistory(cfg Cfg, evs []Event) ([]Obs, []string, error) {
 		var ntx *sql.SQLTx
 		visible := ev.Stmts
 		probe := map[string]bool{}
-		if ck.unique {
+		if ck.unique && !cfg.UComp {
 			for _, x := range ck.vals {
 				if v.firstIsTomb(false, x) {
 					probe[x.Key()] = true
@@ -784,6 +797,9 @@ func rowsCoq(rows []TRow) string {
 }
 
 func emit(r *vk.Run, cfg Cfg, evs []Event, bucket string) error {
+	for i := range evs {
+		evs[i].Comp = evs[i].Act == "ddl" && evs[i].Unique && cfg.UComp
+	}
 	obs, findings, err := runHistory(cfg, evs)
 	if errors.Is(err, errHang) {
 		// reported as a finding; the case cannot be compared with the model
